@@ -111,8 +111,8 @@ def item_sites(repo, out):
                      '_channel_freqs', [], _is_none_test('_channel_freqs'))
     _emit(out, 'site_spw', i, l)
 
-    def getter_test(t):   # `isinstance(sensor_data, SensorGetter) and extract`: the entry is still raw
-        return 'isinstance(sensor_data, SensorGetter)' in ast.unparse(t)
+    def getter_test(t):   # exactly `isinstance(sensor_data, SensorGetter) and extract`: the entry is still raw
+        return ast.unparse(t) == 'isinstance(sensor_data, SensorGetter) and extract'
     i, l = lazy_site(repo, 'katdal/sensordata.py', 'SensorCache', 'get', '_lock', '_raw',
                      ['virtual', 'store', 'props', 'timestamps'], getter_test, returns_local=True)
     _emit(out, 'site_sensor_get', i, l)
